@@ -223,6 +223,19 @@ func main() {
 			}
 		}
 	}
+	// calls that return: the goroutines draw 7 of 8 calls from these (a recovered panic —
+	// a call outside the method's contract, e.g. Add on strings — is compared "panic" ==
+	// "panic" and exercises little)
+	var valid [][3]int
+	for o := range ops {
+		for i := 0; i < nv; i++ {
+			for j := 0; j < nv; j++ {
+				if expect[(o*nv+i)*nv+j] != "panic" {
+					valid = append(valid, [3]int{o, i, j})
+				}
+			}
+		}
+	}
 	before := make([]string, nv)
 	for i, v := range vals {
 		before[i] = show(v)
@@ -232,17 +245,24 @@ func main() {
 	var wg sync.WaitGroup
 	var mu sync.Mutex
 	diffs := []string{}
-	calls := 0
+	calls, panicCalls := 0, 0
 	for t := 0; t < g; t++ {
 		wg.Add(1)
 		go func(t int) {
 			defer wg.Done()
 			r := rand.New(rand.NewSource(seed*1000 + int64(t)))
-			n := 0
+			n, np := 0, 0
 			for k := 0; k < iters; k++ {
 				o, i, j := r.Intn(len(ops)), r.Intn(nv), r.Intn(nv)
+				if k%8 != 0 {
+					t := valid[r.Intn(len(valid))]
+					o, i, j = t[0], t[1], t[2]
+				}
 				got := try(func() string { return ops[o].f(r, vals[i], vals[j]) })
 				n++
+				if got == "panic" {
+					np++
+				}
 				if got != expect[(o*nv+i)*nv+j] {
 					mu.Lock()
 					diffs = append(diffs, fmt.Sprintf("%s(#%d, #%d): sequential %.200q, concurrent %.200q", ops[o].name, i, j, expect[(o*nv+i)*nv+j], got))
@@ -272,6 +292,7 @@ func main() {
 			}
 			mu.Lock()
 			calls += n
+			panicCalls += np
 			mu.Unlock()
 		}(t)
 	}
@@ -281,7 +302,7 @@ func main() {
 			diffs = append(diffs, fmt.Sprintf("shared value #%d changed: %.200q -> %.200q", i, before[i], show(v)))
 		}
 	}
-	fmt.Printf("CALLS %d\n", calls)
+	fmt.Printf("CALLS %d PANICS %d\n", calls, panicCalls)
 	for i, d := range diffs {
 		if i < 5 {
 			fmt.Println("DIFF " + d)
